@@ -1,9 +1,194 @@
 import DaskModel.Model.TextBlocks
-/-! # C50 — block-wise text reading reproduces the file exactly (theorems) -/
+import DaskModel.Lemmas.TextSeek
+import DaskModel.Lemmas.TextOffsets
+import DaskModel.Lemmas.TextSplit
+/-! # C50 — block-wise text reading reproduces the file exactly (theorems)
+
+Statement: for any file contents, delimiter and blocksize, the blocks from `read_bytes` concatenate to
+the file contents, and every block boundary falls just after a delimiter. `read_text` returns the same
+lines for every blocksize (including none) … Those lines equal the file split after each delimiter,
+with no empty trailing element.
+
+Model: `DaskModel/Model/TextBlocks.lean`; helper lemmas: `DaskModel/Lemmas/Text*.lean`. -/
 namespace Dask.C50
 open Dask.TextBlocks
 
-/-! ## refutation witnesses (statements that are / were false of the code) -/
+/-! ## 1. offsets and lengths (`read_bytes`) -/
+
+/-- `offsets_cover`: for every non-empty file and positive blocksize the planned offsets start at 0 and
+    strictly increase, the lengths are positive, as many as the offsets, and sum to the file size.
+    Stated for any double arithmetic that is monotone, exact on integers ≤ 2^53, exact when doubling and
+    never rounds a quotient below an integer lower bound (`GoodArith`); file size < 2^53. -/
+theorem offsets_cover (A : FArith) (hA : GoodArith A) (size bs : Nat) (hs : 0 < size) (hb : 0 < bs)
+    (hsz : size < 2 ^ 53) :
+    ∃ offs lens, plan A size bs = some (offs, lens) ∧ offs.head? = some 0 ∧ offs.Pairwise (· < ·) ∧
+      (∀ o ∈ offs, o < size) ∧ lens.length = offs.length ∧ (∀ l ∈ lens, 0 < l) ∧ lens.sum = size := by
+  obtain ⟨offs, ho, h0, hpw, hlt⟩ := offsets_planOK A hA size bs hs hb hsz
+  refine ⟨offs, lengthsOf size offs, by simp [plan, ho], h0, hpw, hlt, lengthsOf_length _ _,
+    lengthsOf_pos size offs hpw hlt, ?_⟩
+  cases offs with
+  | nil => simp at h0
+  | cons o rest =>
+    have : o = 0 := by simpa using h0
+    subst this
+    simpa using lengthsOf_sum size 0 rest hpw hlt
+
+/-- the int branch (`size % blocksize = 0` or `size ≤ blocksize`) needs no assumption on the arithmetic
+    and no bound on the file size -/
+theorem offsets_cover_int (A : FArith) (size bs : Nat) (hs : 0 < size) (hb : 0 < bs)
+    (hint : size % bs = 0 ∨ size ≤ bs) :
+    ∃ offs, offsets A size bs = some offs ∧ PlanOK size offs := by
+  unfold offsets
+  simp only [show size ≠ 0 by omega, show bs ≠ 0 by omega, if_false]
+  have : ¬ (size % bs ≠ 0 ∧ bs < size) := by omega
+  simp only [this, if_false]
+  obtain ⟨h1, h2⟩ := loopInt_ok size bs hb (size + 1) 0
+  refine ⟨_, rfl, rfl, h1, ?_⟩
+  intro o ho
+  rcases List.mem_cons.mp ho with rfl | ho
+  · exact hs
+  · exact (h2 o ho).2
+
+/-- …and in the int branch the last block is shorter than two block sizes (the loop ended because its
+    condition failed, not because the model's fuel ran out) -/
+theorem offsets_int_last (A : FArith) (size bs : Nat) (hs : 0 < size) (hb : 0 < bs)
+    (hint : size % bs = 0 ∨ size ≤ bs) :
+    ∀ offs x, offsets A size bs = some offs → offs.getLast? = some x → size < x + 2 * bs := by
+  intro offs x ho hx
+  unfold offsets at ho
+  simp only [show size ≠ 0 by omega, show bs ≠ 0 by omega, if_false] at ho
+  have : ¬ (size % bs ≠ 0 ∧ bs < size) := by omega
+  simp only [this, if_false, Option.some.injEq] at ho
+  subst ho
+  refine loopInt_last size bs hb (size + 1) 0 ?_ x hx
+  have : size + 1 ≤ (size + 1) * bs := Nat.le_mul_of_pos_right _ hb
+  omega
+
+example : plan ieee 39 4 = some ([0, 4, 8, 13, 17, 21, 25, 30, 34], [4, 4, 5, 4, 4, 4, 5, 4, 5]) := by decide +kernel
+example : plan ieee 10 5 = some ([0, 5], [5, 5]) := by decide +kernel
+
+/-! ## 2. the blocks concatenate to the file; boundaries fall just after a delimiter -/
+
+/-- `blocks_concat_file`: for every file content, every non-empty delimiter and every blocksize
+    (including none) the blocks `read_bytes` produces concatenate to the file content. -/
+theorem blocks_concat_file (A : FArith) (hA : GoodArith A) (data d : List Nat) (hd : d ≠ [])
+    (bs : Option Nat) (hb : ∀ b, bs = some b → 0 < b) (hsz : data.length < 2 ^ 53) :
+    ∃ blocks, fileBlocks A data d bs = some blocks ∧ blocks.flatten = data := by
+  cases bs with
+  | none => exact ⟨[data], by simp [fileBlocks, readBlockFromFile], by simp⟩
+  | some b =>
+    have hb' := hb b rfl
+    by_cases hs : data.length = 0
+    · have : data = [] := List.length_eq_zero_iff.mp hs
+      subst this
+      exact ⟨[], by simp [fileBlocks, plan, offsets, lengthsOf], rfl⟩
+    · obtain ⟨offs, ho, h0, hpw, hlt⟩ := offsets_planOK A hA data.length b (by omega) hb' hsz
+      refine ⟨blocksOf data d offs, by simp [fileBlocks, plan, ho, blocksOf], ?_⟩
+      cases offs with
+      | nil => simp at h0
+      | cons o rest =>
+        have : o = 0 := by simpa using h0
+        subst this
+        rw [blocksOf_flatten hd rest 0 hpw hlt, seekPos_zero]; rfl
+
+/-- `boundary_after_delimiter`: the position `seek_delimiter` moves to from an offset `pos > 0` is either
+    the end of the file or directly after the first occurrence of the delimiter starting at or after
+    `pos` — so the bytes just before every interior block boundary are the delimiter. -/
+theorem boundary_after_delimiter (d data : List Nat) (pos : Nat) (h0 : 0 < pos) (hp : pos ≤ data.length)
+    (hin : seekPos d data pos < data.length) : d <:+ data.take (seekPos d data pos) := by
+  rcases seekPos_spec (d := d) h0 hp with ⟨q, _, hq, hpre, _⟩ | ⟨hlen, _⟩
+  · rw [hq]
+    obtain ⟨r, hr⟩ := hpre
+    have hql : q + d.length ≤ data.length := by
+      have := congrArg List.length hr
+      simp only [List.length_append, List.length_drop] at this; omega
+    refine ⟨data.take q, ?_⟩
+    have h1 : data.take (q + d.length) = data.take q ++ (data.drop q).take d.length := by
+      rw [List.take_add]
+    rw [h1, ← hr]; simp
+  · omega
+
+/-- each block is the slice of the file between two consecutive boundaries -/
+theorem block_eq_slice (data d : List Nat) (hd : d ≠ []) (offs : List Nat) (hpw : offs.Pairwise (· < ·))
+    (hlt : ∀ o ∈ offs, o < data.length) (i : Nat) (o : Nat) (hi : offs[i]? = some o) :
+    (blocksOf data d offs)[i]? =
+      some ((data.drop (seekPos d data o)).take
+        (seekPos d data ((offs[i + 1]?).getD data.length) - seekPos d data o)) := by
+  induction offs generalizing i with
+  | nil => simp at hi
+  | cons a rest ih =>
+    cases rest with
+    | nil =>
+      cases i with
+      | zero =>
+        have : a = o := by simpa using hi
+        subst this
+        have ha := hlt a (by simp)
+        simp only [blocksOf, lengthsOf, List.zip_cons_cons, List.zip_nil_right, List.map_cons, List.map_nil,
+          List.getElem?_cons_zero, Option.some.injEq]
+        rw [readBlockFromFile_some hd (by omega)]
+        simp [show a + (data.length - a) = data.length by omega]
+      | succ i => simp at hi
+    | cons a' rest =>
+      have haa' : a < a' := (List.pairwise_cons.mp hpw).1 a' (by simp)
+      have ha' : a' < data.length := hlt a' (by simp)
+      rw [blocksOf_cons_cons]
+      cases i with
+      | zero =>
+        have : a = o := by simpa using hi
+        subst this
+        simp only [List.getElem?_cons_zero, Option.some.injEq]
+        rw [readBlockFromFile_some hd (by omega)]
+        simp [show a + (a' - a) = a' by omega]
+      | succ i =>
+        simp only [List.getElem?_cons_succ] at hi ⊢
+        exact ih (List.pairwise_cons.mp hpw).2 (fun x hx => hlt x (List.mem_cons_of_mem _ hx)) i hi
+
+/-! ## 3. lines: `decode`, `file_to_blocks` and the reference split -/
+
+/-- `decode` (and `file_to_blocks`, which is the same function of the text after the repair of #10)
+    returns exactly the reference: the text split after each delimiter, empty trailing part dropped. -/
+theorem decode_eq_refLines (d t : List Nat) (hd : d ≠ []) : decode d t = refLines d t := by
+  have hde : d.isEmpty = false := by cases d <;> simp_all
+  unfold decode refLines
+  cases t with
+  | nil => simp [pySplit, hde, pySplitAux, lastPart]
+  | cons c cs => simp
+
+theorem fileToBlocks_eq_refLines (d t : List Nat) (hd : d ≠ []) : fileToBlocks d t = refLines d t :=
+  decode_eq_refLines d t hd
+
+theorem decode_eq_lines (d t : List Nat) (hd : d ≠ []) : decode d t = some (lines d t) := by
+  have hde : d.isEmpty = false := by cases d <;> simp_all
+  rw [decode_eq_refLines d t hd]
+  simp [refLines, pySplit, hde, lines, linesAux, joinLines]
+
+/-- nothing is lost and nothing invented: the lines concatenate to the text -/
+theorem decode_flatten (d t : List Nat) (hd : d ≠ []) :
+    ∃ ls, decode d t = some ls ∧ ls.flatten = t := by
+  refine ⟨lines d t, decode_eq_lines d t hd, ?_⟩
+  simpa [lines] using linesAux_flatten hd [] t
+
+/-- `no_trailing_empty`: no line is empty — in particular there is no empty trailing element -/
+theorem decode_no_empty_line (d t : List Nat) (hd : d ≠ []) :
+    ∀ ls, decode d t = some ls → ∀ l ∈ ls, l ≠ [] := by
+  intro ls hls
+  rw [decode_eq_lines d t hd] at hls
+  cases hls
+  exact joinLines_ne_nil hd _
+
+/-- every line but the last ends with the delimiter -/
+theorem decode_lines_end_with_delimiter (d t : List Nat) (hd : d ≠ []) :
+    ∀ ls, decode d t = some ls → ∀ l ∈ ls.dropLast, d <:+ l := by
+  intro ls hls
+  rw [decode_eq_lines d t hd] at hls
+  cases hls
+  exact joinLines_suffix d _
+
+example : decode [124, 124] [97, 124, 124, 98, 124, 124] = some [[97, 124, 124], [98, 124, 124]] := by decide
+example : decode [124] [97, 124, 98] = some [[97, 124], [98]] := by decide
+
+/-! ## 4. refutation witnesses (statements that are / were false of the code) -/
 
 /-- DESIGN §6 #11 (finding): with the self-overlapping delimiter `aa` the lines of `aaab` depend on
     the blocksize: blocksize 1 gives `aa | a | b`, blocksize None gives `aa | ab`. -/
